@@ -139,6 +139,108 @@ pub fn finish(report: Report) -> i32 {
 }
 
 // ---------------------------------------------------------------------------------------------
+// crash hunting: a worker that dies (stack overflow, abort) is a finding, not a harness error
+
+/// Runs the jobs like `proc::call_many`. A job whose worker process was killed by a signal is run
+/// again with VERIF_TRACE_RUNS, which makes it record the scenario it is executing; that scenario
+/// is then executed alone (`single`); if the lone process dies too, a violation of class "crash"
+/// with that scenario as its replay is appended to `crashes` (and the job's own result is replaced
+/// by an empty report). Anything else stays a harness error.
+fn call_many_hunting(sim: &str, jobs: Vec<(Vec<String>, Value)>, par: usize, crashes: &mut Vec<Value>) -> Vec<Result<Value, String>> {
+    let copy = jobs.clone();
+    let mut results = proc::call_many(jobs, par);
+    for (i, r) in results.iter_mut().enumerate() {
+        let Err(e) = r else { continue };
+        if !e.starts_with(proc::CRASH) {
+            continue;
+        }
+        if crashes.len() >= 3 {
+            // three dead workers are already reduced to their scenarios: further ones add nothing
+            *r = Ok(json!({"crashed_worker": true, "not_hunted": true}));
+            continue;
+        }
+        let file = std::env::temp_dir().join(format!("verif-crash-{}-{}.json", std::process::id(), i));
+        let argv: Vec<&str> = copy[i].0.iter().map(|s| s.as_str()).collect();
+        let again = proc::call_env(&argv, &copy[i].1, &[("VERIF_TRACE_RUNS", file.to_string_lossy().to_string())]);
+        let recorded = std::fs::read_to_string(&file).ok().and_then(|t| serde_json::from_str::<Value>(&t).ok());
+        let _ = std::fs::remove_file(&file);
+        let (Err(e2), Some(scenario)) = (again, recorded) else { continue };
+        if !e2.starts_with(proc::CRASH) {
+            continue;
+        }
+        let sim_name = scenario["sim"].as_str().map(|s| if s.starts_with("ossim") { "ossim" } else { s }).unwrap_or(sim).to_string();
+        match proc::call(&["single", &sim_name], &scenario) {
+            Err(e3) if e3.starts_with(proc::CRASH) => {
+                let original = scenario.clone();
+                let scenario = minimise_crash(&sim_name, scenario);
+                crashes.push(json!({
+                    "original_scenario": original,
+                    "sim": sim_name, "class": "crash", "scenario": scenario,
+                    "subject_id": format!("crash:{:.300}", scenario.to_string()),
+                    "detail": format!("the process executing this scenario was killed ({:.700}); the scenario alone in a fresh process dies the same way", e3),
+                }));
+                *r = Ok(json!({"crashed_worker": true}));
+            }
+            _ => {}
+        }
+    }
+    results
+}
+
+/// Delta debugging of a scenario that kills its process: every candidate runs in a process of its
+/// own (`single`); kept while that process still dies. Operation lists of cellsim threads and
+/// call lists of ossim scenarios are reduced; other scenario kinds are kept whole.
+fn minimise_crash(sim: &str, scenario: Value) -> Value {
+    let dies = |sc: &Value| matches!(proc::call(&["single", sim], sc), Err(e) if e.starts_with(proc::CRASH));
+    let budget = std::cell::Cell::new(80u32);
+    let mut best = scenario;
+    let mut reduce = |best: &mut Value, get: &dyn Fn(&Value) -> Vec<Value>, set: &dyn Fn(&mut Value, Vec<Value>)| {
+        let items = get(best);
+        if items.len() < 2 {
+            return;
+        }
+        let base = best.clone();
+        let kept = crate::ddmin::ddmin(&items, |cand| {
+            if budget.get() == 0 {
+                return false;
+            }
+            budget.set(budget.get() - 1);
+            let mut sc = base.clone();
+            set(&mut sc, cand.to_vec());
+            dies(&sc)
+        });
+        if kept.len() < items.len() {
+            set(best, kept);
+        }
+    };
+    match (sim, best["sim"].as_str().unwrap_or("")) {
+        ("cellsim", _) => {
+            let n = best["threads"].as_array().map_or(0, |a| a.len());
+            for t in 0..n {
+                reduce(&mut best, &|sc| sc["threads"][t].as_array().cloned().unwrap_or_default(), &|sc, ops| sc["threads"][t] = Value::Array(ops));
+            }
+        }
+        ("ossim", "ossim") => {
+            reduce(&mut best, &|sc| sc["calls"].as_array().cloned().unwrap_or_default(), &|sc, calls| sc["calls"] = Value::Array(calls));
+        }
+        _ => {}
+    }
+    best
+}
+
+/// A "crash" finding is confirmed when the lone process dies again.
+fn confirm_crash(sim: &str, v: &Value) -> Option<Result<bool, String>> {
+    if v["class"].as_str() != Some("crash") {
+        return None;
+    }
+    Some(match proc::call(&["single", sim], &v["scenario"]) {
+        Err(e) if e.starts_with(proc::CRASH) => Ok(true),
+        Err(e) => Err(e),
+        Ok(_) => Ok(false),
+    })
+}
+
+// ---------------------------------------------------------------------------------------------
 // hashsim-based properties (C05, C15)
 
 /// Re-runs the explicit scenarios of a candidate in fresh processes; true iff it fails the same way.
@@ -278,7 +380,8 @@ pub fn check_hashsim(property: &str, tier: &str) -> i32 {
             ));
         }
     }
-    let results = proc::call_many(jobs, par);
+    let mut crashes: Vec<Value> = Vec::new();
+    let results = call_many_hunting("hashsim", jobs, par, &mut crashes);
     let mut harness_errors = Vec::new();
     let mut candidates: Vec<Value> = Vec::new();
     let mut runs = 0u64;
@@ -362,7 +465,8 @@ pub fn check_hashsim(property: &str, tier: &str) -> i32 {
         }
     }
     // one candidate per subject, confirmed by fresh-process replay
-    let mut confirmed = Vec::new();
+    // worker processes that died: each already reduced to the one scenario that kills a lone process
+    let mut confirmed: Vec<Value> = crashes;
     let mut seen_subjects = BTreeSet::new();
     let mut unconfirmed = 0;
     let mut history_searches = 0;
@@ -545,7 +649,8 @@ pub fn check_cellsim(property: &str, tier: &str) -> i32 {
             ));
         }
     }
-    let results = proc::call_many(jobs, par);
+    let mut crashes: Vec<Value> = Vec::new();
+    let results = call_many_hunting("cellsim", jobs, par, &mut crashes);
     let mut harness_errors = Vec::new();
     let mut candidates: Vec<Value> = Vec::new();
     let mut n = 0u64;
@@ -605,7 +710,8 @@ pub fn check_cellsim(property: &str, tier: &str) -> i32 {
         }
     }
     // minimise + confirm, at most a handful per class
-    let mut confirmed = Vec::new();
+    // worker processes that died: each already reduced to the one scenario that kills a lone process
+    let mut confirmed: Vec<Value> = crashes;
     let mut per_class: BTreeMap<String, usize> = BTreeMap::new();
     let mut unconfirmed = 0;
     for c in candidates {
@@ -717,6 +823,9 @@ pub fn check_cellsim(property: &str, tier: &str) -> i32 {
 }
 
 pub fn confirm_any(sim: &str, v: &Value) -> Result<bool, String> {
+    if let Some(r) = confirm_crash(sim, v) {
+        return r;
+    }
     match sim {
         "hashsim" => confirm_hashsim(v),
         "cellsim" => confirm_cellsim(v),
@@ -757,7 +866,8 @@ pub fn check_ossim(property: &str, tier: &str) -> i32 {
             ));
         }
     }
-    let results = proc::call_many(jobs, par);
+    let mut crashes: Vec<Value> = Vec::new();
+    let results = call_many_hunting("ossim", jobs, par, &mut crashes);
     let mut harness_errors = Vec::new();
     let mut candidates: Vec<Value> = Vec::new();
     let mut n = 0u64;
@@ -804,7 +914,8 @@ pub fn check_ossim(property: &str, tier: &str) -> i32 {
             }
         }
     }
-    let mut confirmed = Vec::new();
+    // worker processes that died: each already reduced to the one scenario that kills a lone process
+    let mut confirmed: Vec<Value> = crashes;
     let mut per_class: BTreeMap<String, usize> = BTreeMap::new();
     let mut seen: BTreeSet<String> = BTreeSet::new();
     let mut unconfirmed = 0;
@@ -923,7 +1034,8 @@ pub fn check_replsim(property: &str, tier: &str) -> i32 {
             ));
         }
     }
-    let results = proc::call_many(jobs, par);
+    let mut crashes: Vec<Value> = Vec::new();
+    let results = call_many_hunting("replsim", jobs, par, &mut crashes);
     let mut harness_errors = Vec::new();
     let mut candidates: Vec<Value> = Vec::new();
     let mut n = 0u64;
@@ -957,7 +1069,8 @@ pub fn check_replsim(property: &str, tier: &str) -> i32 {
             }
         }
     }
-    let mut confirmed = Vec::new();
+    // worker processes that died: each already reduced to the one scenario that kills a lone process
+    let mut confirmed: Vec<Value> = crashes;
     let mut per_class: BTreeMap<String, usize> = BTreeMap::new();
     let mut seen: BTreeSet<String> = BTreeSet::new();
     let mut unconfirmed = 0;
